@@ -25,7 +25,7 @@ NodeOf(j) == [id |-> j.id, up |-> j.up, inc |-> j.inc, died |-> j.died,
               term |-> j.term, vote |-> j.vote, dterm |-> j.disk.term, dvote |-> j.disk.vote,
               state |-> j.state, leader |-> j.leader, commit |-> j.commit,
               logPrev |-> j.logPrev, log |-> [k \in 1..Len(j.log) |-> EntryOf(j.log[k])], synced |-> j.synced,
-              snapIdx |-> j.snap.index, snapTerm |-> j.snap.term, snapCfg |-> CfgOf(j.snap.cfg),
+              snapIdx |-> j.snap.index, snapTerm |-> j.snap.term, snapCfg |-> CfgOf(j.snap.cfg), snapCmds |-> j.snap.cmds,
               cfgC |-> CfgOf(j.cfgC), cfgL |-> CfgOf(j.cfgL),
               fsmIdx |-> j.fsm.index, fsmCmds |-> j.fsm.cmds, ldr |-> j.ldr]
 Cluster(rec) == [i \in {rec.nodes[k].id : k \in 1..Len(rec.nodes)} |->
@@ -43,6 +43,9 @@ Failed(g, ns) ==
   \cup (IF C05_OneVotePerTerm(g) THEN {} ELSE {"C05_OneVotePerTerm"})
   \cup (IF C06_MajorityDurable(g) THEN {} ELSE {"C06_MajorityDurable"})
   \cup (IF C15_NoSelfInflictedDeath(ns) THEN {} ELSE {"C15_NoSelfInflictedDeath"})
+  \cup (IF C09_SnapshotCommitted(g, ns) THEN {} ELSE {"C09_SnapshotCommitted"})
+  \cup (IF C09_NoViewInvalidation(ns) THEN {} ELSE {"C09_NoViewInvalidation"})
+  \cup (IF C12_LabelOK(g, ns) THEN {} ELSE {"C12_LabelOK"})
   \cup (IF C08_OneVoterDelta(ns) THEN {} ELSE {"C08_OneVoterDelta"})
   \cup (IF C11_DemotedLeaderStepsDown(ns) THEN {} ELSE {"C11_DemotedLeaderStepsDown"})
   \cup (IF C19_Ordered(ns) THEN {} ELSE {"C19_Ordered"})
